@@ -29,6 +29,7 @@ DOC = {
 }
 
 S = 'semaphore::Semaphore'
+LOCK_F, CVAR_F = 'lock', 'cvar'
 
 
 def counter_updates(body, opname):
@@ -56,9 +57,28 @@ def stores_through(body, locals_):
     return out
 
 
+def sem_fields(lib):
+    """(mutex field, condvar field) of Semaphore by what acquire does with them: the field whose Mutex is locked and the field whose Condvar is
+    waited on - whatever they are called"""
+    b = lib.body(S + '::acquire')
+    lock_f = cvar_f = None
+    if b is not None:
+        own = lambda sl: [e[2] for l in [0] for blk in b.blocks for st in blk['stmts'] if st['p'][0] in sl.locals for pl in rvalue_places(st['rv'])
+                          for e in pl[1] if isinstance(e, list) and e[0] == 'F' and len(e) > 3 and e[3].endswith('semaphore::Semaphore')]
+        for c in b.calls(r'^std::sync::Mutex::<T>::lock$|^std::sync::Mutex::lock$'):
+            fs = own(backslice(b, [c.args[0]]))
+            lock_f = lock_f or (fs[0] if fs else None)
+        for c in b.calls(r'^std::sync::Condvar::wait(_while|_timeout|_timeout_while)?$'):
+            fs = own(backslice(b, [c.args[0]]))
+            cvar_f = cvar_f or (fs[0] if fs else None)
+    return lock_f or 'lock', cvar_f or 'cvar'
+
+
 @register('C19', DOC)
 def run(ctx):
     lib = ctx.lib
+    global LOCK_F, CVAR_F
+    LOCK_F, CVAR_F = sem_fields(lib)
     acq = ctx.need_body('C19.R1', S + '::acquire')
     rel = ctx.need_body('C19.R3', S + '::release')
     if acq is not None:
@@ -151,19 +171,84 @@ def r9(ctx):
     ctx.floor(rule, 'Semaphore::new sites in the library', n, 2)
 
 
+def r12_wait_while(ctx, lib, b, w, locks):
+    """The same monitor pattern written with Condvar::wait_while(guard, |count| pred): std runs `while pred(&mut *guard) { guard = wait(guard) }`,
+    i.e. the predicate is re-tested under the lock after every wake-up (spurious ones included). What is left to decide: the predicate is
+    `count <= 0`, the guard that goes in is the one of lock() on the mutex of self, and the single decrement by one happens through the guard
+    that comes out, with no unlock in between, on every path to the return."""
+    from ..analysis import truth_table
+    rule = 'C19.R1'
+    P = b.path
+    ctx.ok(rule, P + '|wait-kind', w.where(), 'Condvar::wait_while (untimed): the loop around the wait is the one of the standard library')
+    wsl = backslice(b, [w.args[0]])
+    ctx.check(CVAR_F in wsl.field_names() and 1 in wsl.params, rule, P + '|wait-cvar', w.where(), 'waits on the condition variable of self (field `%s`)' % CVAR_F, 'wait is not on a condition variable of self')
+    lsl = backslice(b, [locks[0].args[0]])
+    ctx.check(LOCK_F in lsl.field_names() and 1 in lsl.params and len(locks) == 1, rule, P + '|lock-field', locks[0].where(), 'locks the mutex of self (field `%s`) once' % LOCK_F, 'lock() is not on the mutex of self / %d lock calls' % len(locks))
+    gsl = backslice(b, [w.args[1]])
+    ctx.check(locks[0] in gsl.calls, rule, P + '|test-under-guard', w.where(), 'the guard handed to wait_while is the one of lock()', 'the guard handed to wait_while does not come from lock()')
+    l2 = op_local(w.args[2]) if len(w.args) > 2 else None
+    cp = lib.closure_of_type(b.local_ty(l2)) if l2 is not None else None
+    cb = lib.body(cp) if cp else None
+    if cb is None:
+        ctx.missing(rule, 'predicate closure of wait_while', w.where())
+        return
+    tests = []
+    for cmp in comparisons(cb):
+        ka, kb = const_int(cmp.a), const_int(cmp.b)
+        if (ka is None) == (kb is None):
+            continue
+        var, k, op = (cmp.a, kb, cmp.op) if kb is not None else (cmp.b, ka, FLIP[cmp.op])
+        if 2 in backslice(cb, [var]).params:
+            tests.append((cmp, op, k))
+    if not tests:
+        ctx.missing(rule, 'comparison of the guarded counter with a constant in the predicate of wait_while', cb.where())
+        return
+    cmp, op, k = tests[0]
+    names, table = truth_table(cb, {'t': cmp.bb})
+    same = all(r is v[0] for v, r in table.items() if v[0] is not None)
+    neg = all(r is (not v[0]) for v, r in table.items() if v[0] is not None)
+    rel = op if same else ({'<': '>=', '<=': '>', '>': '<=', '>=': '<', '==': '!=', '!=': '=='}[op] if neg else None)
+    waits_iff = (rel == '<=' and k == 0) or (rel == '<' and k == 1)
+    ctx.check(waits_iff, rule, P + '|wait-relation', cb.where(cmp.line), 'waits while count %s %d (= count <= 0)' % (rel, k), 'waits while count %s %s; expected count <= 0' % (rel, k))
+    ctx.ok(rule, P + '|recheck-loop', w.where(), 'after every wake-up the predicate is tested again under the lock (Condvar::wait_while)')
+    decs = counter_updates(b, 'Sub')
+    stores = [(bi, kk, s_) for bi, kk, s_ in decs if backslice(b, [s_['rv']['a']]).has_call(r'MutexGuard<.*> as std::ops::DerefMut>::deref_mut$')]
+    if not stores:
+        ctx.missing(rule, 'decrement of the guarded counter', b.where())
+        return
+    ctx.check(len(stores) == 1 and stores[0][1] == 1, rule, P + '|decrement-by-one', b.where(stores[0][2]['line']), 'a single decrement by 1', '%d decrements, amounts %s' % (len(stores), [x[1] for x in stores]))
+    dbb = stores[0][0]
+    ctx.check(w.ret is not None and b.dominates(w.ret, dbb), rule, P + '|decrement-after-exit', b.where(stores[0][2]['line']), 'the decrement is reachable only after wait_while has returned', 'the decrement is reachable without passing wait_while')
+    okp, off = b.must_pass(w.ret, lambda x: x == dbb) if w.ret is not None else (False, None)
+    # the Err of a poisoned wait leaves by panicking (unwrap) or returning an error: only successful paths count - must_pass looks at returns
+    ctx.check(okp, rule, P + '|decrement-on-every-exit', b.where(stores[0][2]['line']), 'every path from wait_while to the return decrements', 'a path returns without decrementing')
+    rule2 = 'C19.R2'
+    between = (b.reachable(w.ret) if w.ret is not None else set()) & {x for x in range(len(b.blocks)) if dbb in b.reachable(x)}
+    bad = [x for x in between if (b.blocks[x]['term']['k'] == 'drop' and 'MutexGuard' in b.blocks[x]['term']['ty'] and x != dbb)
+           or (b.call_at(x) is not None and b.call_at(x).matches(r'std::mem::drop$|Mutex::<T>::lock$|Mutex::lock$|Mutex::<T>::try_lock$|Condvar::wait'))]
+    dsl = backslice(b, [stores[0][2]['rv']['a']])
+    ctx.check(not bad and w in dsl.calls, rule2, P + '|check-and-decrement-atomic', b.where(stores[0][2]['line']), 'the decrement goes through the guard that wait_while returned, with no unlock in between',
+              'the MutexGuard is released/re-taken between wait_while and the decrement (blocks %s), or the decrement uses another guard' % sorted(bad))
+    ctx.ok(rule2, P + '|guard-held-in-loop', w.where(), 'the guard is only given up inside Condvar::wait_while')
+
+
 def r12(ctx, lib, b):
     rule = 'C19.R1'
+    global LOCK_F, CVAR_F
+    LOCK_F, CVAR_F = sem_fields(lib)
     P = b.path
     waits = b.calls(r'^std::sync::Condvar::wait(_while|_timeout|_timeout_while)?$')
     locks = b.calls(r'^std::sync::Mutex::<T>::lock$|^std::sync::Mutex::lock$')
     if not ctx.floor(rule, 'Condvar::wait in acquire', len(waits), 1, b.where()) or not ctx.floor(rule, 'Mutex::lock in acquire', len(locks), 1, b.where()):
         return
     w = waits[0]
+    if w.path.endswith('::wait_while') and len(waits) == 1:
+        return r12_wait_while(ctx, lib, b, w, locks)
     ctx.check(w.path.endswith('::wait') and len(waits) == 1, rule, P + '|wait-kind', w.where(), 'plain Condvar::wait (untimed)', 'wait variant %s / %d waits' % (w.path, len(waits)))
     wsl = backslice(b, [w.args[0]])
-    ctx.check('cvar' in wsl.field_names(), rule, P + '|wait-cvar', w.where(), 'waits on self.cvar', 'wait is not on self.cvar')
+    ctx.check(CVAR_F in wsl.field_names() and 1 in wsl.params, rule, P + '|wait-cvar', w.where(), 'waits on the condition variable of self (field `%s`)' % CVAR_F, 'wait is not on a condition variable of self')
     lsl = backslice(b, [locks[0].args[0]])
-    ctx.check('lock' in lsl.field_names() and len(locks) == 1, rule, P + '|lock-field', locks[0].where(), 'locks self.lock once', 'lock() is not on self.lock / %d lock calls' % len(locks))
+    ctx.check(LOCK_F in lsl.field_names() and 1 in lsl.params and len(locks) == 1, rule, P + '|lock-field', locks[0].where(), 'locks the mutex of self (field `%s`) once' % LOCK_F, 'lock() is not on the mutex of self / %d lock calls' % len(locks))
     # the counter test: comparison whose one operand derives from the guard (deref of the MutexGuard) and the other is a constant
     tests = []
     for cmp in comparisons(b):
@@ -252,6 +337,8 @@ def r12(ctx, lib, b):
 
 
 def r3(ctx, lib, b):
+    global LOCK_F, CVAR_F
+    LOCK_F, CVAR_F = sem_fields(lib)
     rule = 'C19.R3'
     P = b.path
     incs = []
@@ -264,11 +351,11 @@ def r3(ctx, lib, b):
         return
     bi, kk, s, sl = incs[0]
     ctx.check(len(incs) == 1 and kk == 1, rule, P + '|increment-by-one', b.where(s['line']), 'a single increment by 1 under the lock', '%d increments, amounts %s' % (len(incs), [x[1] for x in incs]))
-    ctx.check('lock' in sl.field_names(), rule, P + '|lock-field', b.where(s['line']), 'the counter is self.lock', 'the incremented value is not behind self.lock')
+    ctx.check(LOCK_F in sl.field_names(), rule, P + '|lock-field', b.where(s['line']), 'the counter is behind the mutex that acquire locks (field `%s`)' % LOCK_F, 'the incremented value is not behind the mutex that acquire locks')
     okp, off = b.must_pass(0, lambda x: x == bi)
     ctx.check(okp, rule, P + '|increment-on-every-path', b.where(s['line']), 'every path through release increments', 'a path through release does not increment')
     nots = b.calls(r'^std::sync::Condvar::notify_(one|all)$')
-    nots = [c for c in nots if 'cvar' in backslice(b, [c.args[0]]).field_names()]
+    nots = [c for c in nots if CVAR_F in backslice(b, [c.args[0]]).field_names()]
     if not ctx.floor(rule, 'notify on self.cvar in release', len(nots), 1, b.where()):
         return
     nb = {c.bb for c in nots}
@@ -328,7 +415,7 @@ def r5(ctx):
                 for s in blk['stmts']:
                     for p in [s['p']] + rvalue_places(s['rv']):
                         for e in p[1]:
-                            if isinstance(e, list) and e[0] == 'F' and len(e) > 3 and e[3].endswith('semaphore::Semaphore') and e[2] in ('lock', 'cvar'):
+                            if isinstance(e, list) and e[0] == 'F' and len(e) > 3 and e[3].endswith('semaphore::Semaphore') and e[2] in (LOCK_F, CVAR_F):
                                 touched = True
                                 line = s['line']
                 for s in blk['stmts']:
